@@ -122,7 +122,7 @@ class Check:
         cov = self.cov
         cov["disagreements_total"] = len(self.disagreements)
         cov["known_findings_hit"] = sorted(seen)
-        cov["violation_keys"] = [d["key"] for d in violations[:50]]
+        cov["violation_keys"] = [d["key"] for d in violations[:400]]
         cov["notes"] = self.notes
         if not cov["samples"]:
             cov["samples"] = ["(no sample recorded)"]
